@@ -306,7 +306,8 @@ class Scene:
 
     def random_state(self, rng, k, extra=True):
         st = self.mdl.random_state(rng)
-        cmds = ["call %d resetData" % k] + state_cmds(k, st)
+        # a fresh mjData: an engine error (longjmp out of a call) may have left the previous one with a live stack frame
+        cmds = ["data %d" % k] + state_cmds(k, st)
         if extra:
             if self.sizes.get("nuserdata"):
                 cmds.append("set %d userdata %s" % (k, " ".join(repr(rng.uniform(-1, 1)) for _ in range(self.sizes["nuserdata"]))))
@@ -727,6 +728,11 @@ def run_models(ctx, info, exe, sf, sig, nmodels, sleep, thorough, stats):
             fails.append({"what": "harness died (%s)" % e, "replay": {"model": mdl.text(), "commands": h.log[1:][-80:]}})
             h.close()
             h = Harness(exe)
+        except RuntimeError as e:
+            # an unexpected answer of the harness (e.g. an engine error inside a helper command): scenario abandoned, recorded
+            stats.setdefault("scenario_errors", []).append(str(e)[:300])
+            h.close()
+            h = Harness(exe)
     h.close()
     return vprob, fails
 
@@ -754,6 +760,9 @@ def run(ctx):
     ctx.extra["stage_validations"] = stats.get("stage_validations", 0)
     ctx.extra["differentials"] = stats["diff"]
     ctx.extra["models_not_compiled"] = stats.get("not_compiled", 0)
+    ctx.extra["scenario_errors"] = stats.get("scenario_errors", [])[:5]
+    ctx.oblige("at most a few scenarios abandoned on unexpected harness answers", "correspondence",
+               len(stats.get("scenario_errors", [])) <= 2 + (stats.get("stage_validations", 0) // 200), str(stats.get("scenario_errors", [])[:3]))
     ctx.extra["conditional_fields"] = info.cond
     ctx.extra["analysis"] = {e: {k: info.analyze(p, False, "-")[k] for k in ("rbw", "killN")} for e, p in ENTRY_PROG.items()}
     ctx.oblige("footprint table validated on the real engine (V1/V2, %d stage runs)" % stats.get("stage_validations", 0),
